@@ -19,7 +19,7 @@ DB = "phreeqc.dat"
 # group -> list of variants (each a list of (element-as-written, typical max molality))
 INERT_GROUPS = {
     "Na": [[("Na", 0.5)]], "K": [[("K", 0.2)]], "Ca": [[("Ca", 0.02)]], "Mg": [[("Mg", 0.03)]],
-    "Cl": [[("Cl", 0.5)]], "S": [[("S(6)", 0.02)]], "C": [[("C(4)", 0.01)], [("Alkalinity", 0.005)]],
+    "Cl": [[("Cl", 0.5)]], "S": [[("S(6)", 0.02)]], "C": [[("C(4)", 0.01)], [("Alkalinity", 0.005)]], "Alk": [[("Alkalinity", 0.005)]],
     "Si": [[("Si", 3e-4)]], "Br": [[("Br", 0.005)]], "Li": [[("Li", 0.005)]], "Sr": [[("Sr", 5e-4)]],
     "Ba": [[("Ba", 1e-6)]], "F": [[("F", 5e-5)]], "B": [[("B", 1e-3)]], "Al": [[("Al", 1e-7)]],
     "Zn": [[("Zn", 1e-5)]], "P": [[("P", 1e-5)]],
@@ -132,28 +132,50 @@ def solution(draw, n, redox_ok, min_groups=2, max_groups=6):
     if redox_ok:
         groups.update(REDOX_GROUPS)
     names = draw(st.lists(st.sampled_from(sorted(groups)), min_size=min_groups, max_size=max_groups, unique=True))
+    if "Alk" in names and "C" in names:
+        names = [g for g in names if g != "C"]      # alkalinity and carbon are alternatives (both: pH is adjusted)
     comps = []
     for g in names:
         variant = draw(st.sampled_from(groups[g]))
         for el, hi in variant:
             comps.append({"el": el, "c": draw(logu(hi * 1e-3, hi)), "opt": ""})
     pH = draw(uni(4.5, 9.5, 3))
+    has_alk = any(c["el"] == "Alkalinity" for c in comps)
+    if has_alk:
+        # a positive alkalinity needs a pH above the CO2 end point (otherwise: "Alkalinity has not converged")
+        pH = max(pH, 6.5)
+        for c in comps:
+            if c["el"] == "Alkalinity":
+                c["c"] = max(c["c"], 5e-5)
     pe = draw(st.one_of(st.just(4.0), uni(-3.0, 12.0, 3)))
     pe = round(min(max(pe, 1.5 - pH), 19.0 - pH), 2)
     sol = {"n": n, "pH": pH, "pe": pe, "pH_opt": "",
            "temp": draw(st.one_of(st.just(25.0), uni(5.0, 60.0, 3))),
            "water": draw(st.one_of(st.just(1.0), logu(0.05, 20.0, 3))),
            "comps": comps}
-    # charge balance on an ion whose amount has to be raised (a negative requirement does not converge)
-    mode = draw(st.integers(0, 3))
+    # Mostly electroneutral waters: a counter-ion (Na or Cl) is added / raised to cancel the rough charge sum.  (Waters
+    # without counter-ions are accepted by the engine but are ill-conditioned: e.g. the conductivity model averages over
+    # "the cations", which are then only trace species.)
     imbalance = sum(ROUGH_Z.get(c["el"], 0) * c["c"] for c in comps)
+    if draw(st.integers(0, 9)) > 0 and abs(imbalance) > 1e-9:
+        ion = "Cl" if imbalance > 0 else "Na"
+        amt = float("%.4g" % abs(imbalance))
+        for c in comps:
+            if c["el"] == ion:
+                c["c"] = float("%.4g" % (c["c"] + amt))
+                break
+        else:
+            comps.append({"el": ion, "c": amt, "opt": ""})
+        imbalance = sum(ROUGH_Z.get(c["el"], 0) * c["c"] for c in comps)
+    # explicit charge balance on an ion whose amount has to be raised (a negative requirement does not converge)
+    mode = draw(st.integers(0, 3))
     if mode == 1:
         for c in comps:
             z = ROUGH_Z.get(c["el"], 0)
-            if c["el"] in ("Na", "K", "Cl", "Br", "Li") and z * (imbalance - z * c["c"]) < 0 and abs(imbalance - z * c["c"]) > 1e-7:
+            if c["el"] in ("Na", "K", "Cl", "Br", "Li") and c["c"] > 10 * abs(imbalance):
                 c["opt"] = "charge"
                 break
-    elif mode == 2 and abs(imbalance) < 2e-4:
+    elif mode == 2 and abs(imbalance) < 2e-4 and not has_alk:
         sol["pH_opt"] = "charge"
     els = {c["el"] for c in comps}
     if mode == 3:
@@ -178,12 +200,17 @@ def unit_spec(draw, sol, mass_bias=0.5):
         p = {}
         alk = c["el"] == "Alkalinity"
         r = draw(st.integers(0, 9))
-        if r < 4:
-            p["u"] = draw(st.sampled_from(pool + (EQ_UNITS if alk else [])))
+        if alk and r < 7:
+            # alkalinity has its own unit rules (equivalents; 'as CaCO3' means 50.04 g/eq): exercised often
+            p["u"] = draw(st.sampled_from(MASS_UNITS + MASS_UNITS + EQ_UNITS + MOLE_UNITS))
+        elif r < 4:
+            p["u"] = draw(st.sampled_from(pool))
         unit = p.get("u", spec["def"])
         mass = unit_parts(unit)[1] == "g"
         r = draw(st.integers(0, 9))
-        if mass and r < 4:
+        if mass and alk and r < 7:
+            p["as"] = draw(st.sampled_from(["CaCO3", "CaCO3", "HCO3", "Ca0.5(CO3)0.5", "CO3"]))
+        elif mass and r < 4:
             own = c["el"].split("(")[0]
             cands = AS_GENERIC + ([own] if own != "Alkalinity" else ["HCO3", "CaCO3", "CaCO3"])
             p["as"] = draw(st.sampled_from(cands))
@@ -380,7 +407,7 @@ def renumbering(draw, m):
     return num
 
 
-FAMILIES = ["U", "U1", "W", "N", "P", "R", "M"]
+FAMILIES = ["U", "U1", "W", "N", "P", "R", "M", "S"]
 
 
 @st.composite
@@ -390,7 +417,7 @@ def case(draw, fam=None, kind=None):
         kind = kind or draw(st.sampled_from(["batch", "batch", "exch", "surf", "gas", "kin", "spec"]))
         m = draw(model(kind, want_mix=True))
     else:
-        if fam in ("U", "U1") and kind is None:
+        if fam in ("U", "U1", "S") and kind is None:
             kind = draw(st.sampled_from(["spec", "spec", "spec", "batch", "exch", "surf", "gas", "kin"]))
         m = draw(model(kind))
     # units of view A (both views share them unless the family is about units)
@@ -428,6 +455,7 @@ def case(draw, fam=None, kind=None):
         c["xf"]["parts"] = [draw(st.lists(st.integers(1, 9), min_size=1, max_size=3)) for _ in range(nsrc)]
         c["xf"]["copies"] = [[draw(st.integers(0, 2)) == 0 for _ in p] for p in c["xf"]["parts"]]
         c["xf"]["keys"] = draw(keys_list(12))
+        c["xf"]["scaleA"] = draw(st.booleans())
     return c
 
 
@@ -453,7 +481,7 @@ def _sol_block(db, s, spec, view, number, k):
     opts.append(" units %s" % (sp(k, -1, defu) if sp else defu))
     if view.get("density"):
         opts.append(" density %s" % fmt(view["density"]))
-    w = s["water"] * f
+    w = s["water"] * f * view.get("sol_scale", {}).get(s["n"], 1.0)
     if w != 1.0 or view.get("always_water"):
         opts.append(" -water %s" % fmt(w))
     items = []
@@ -472,6 +500,65 @@ def _sol_block(db, s, spec, view, number, k):
             t += " " + c["opt"]
         items.append(t)
     return _block("SOLUTION %d" % number, opts, items, "solution")
+
+
+def _spread_block(db, sols, specs, view, numbers, ks):
+    """the same solutions as one SOLUTION_SPREAD block (tab-delimited; one row per solution).  Several rows only for
+    solutions written without per-constituent options (the sub-heading line applies to the whole column)."""
+    f = view.get("f", 1.0)
+    spec = specs[0]
+    opts = [" -units %s" % spec["def"]]
+    heads = ["Number", "pH", "pe", "temp", "water"]
+    cols = []
+    for s in sols:
+        for c in s["comps"]:
+            if c["el"] not in cols:
+                cols.append(c["el"])
+    sub = {}
+    rows = []
+    for s, sp, number in zip(sols, specs, numbers):
+        row = {"Number": "%d" % number, "pH": fmt(s["pH"]), "pe": fmt(s["pe"]), "temp": fmt(s["temp"]),
+               "water": fmt(s["water"] * f * view.get("sol_scale", {}).get(s["n"], 1.0))}
+        if s["pH_opt"]:
+            sub["pH"] = s["pH_opt"]
+        for j, c in enumerate(s["comps"]):
+            p = (sp["per"][j] if sp.get("per") else None) or {}
+            unit = p.get("u", sp["def"])
+            row[c["el"]] = fmt(input_value(db, c["el"], c["c"], unit, p))
+            t = []
+            if "u" in p:
+                t.append(p["u"])
+            if p.get("as"):
+                t.append("as " + p["as"])
+            elif p.get("gfw"):
+                t.append("gfw " + fmt(p["gfw"]))
+            if c["opt"]:
+                t.append(c["opt"])
+            if t:
+                sub[c["el"]] = " ".join(t)
+        rows.append(row)
+    allh = heads + cols
+    lines = ["\t".join(allh)]
+    if sub:
+        lines.append("\t".join(sub.get(h, "") for h in allh))
+    for row in rows:
+        lines.append("\t".join(row.get(h, "") for h in allh))
+    return {"head": "SOLUTION_SPREAD", "opts": opts, "items": [], "tail": lines, "tag": "spread"}
+
+
+def spread_groups(m, specs):
+    """indices of model solutions that share one SOLUTION_SPREAD block"""
+    simple = [k for k, s in enumerate(m["sols"])
+              if not s["pH_opt"] and not any(c["opt"] for c in s["comps"]) and not specs[k].get("per")]
+    groups = []
+    if len(simple) >= 2 and len({specs[k]["def"] for k in simple}) == 1:
+        groups.append(simple)
+    else:
+        simple = []
+    for k in range(len(m["sols"])):
+        if k not in simple:
+            groups.append([k])
+    return groups
 
 
 def _reactant_blocks(m, st, view, simno):
@@ -553,7 +640,8 @@ def _reactant_blocks(m, st, view, simno):
 def _mix_items(src, view, mixB, sim):
     """-> (list of (solution number (model numbering), fraction), extra copies {new model number: original})"""
     if not mixB or sim != 1:
-        return [(n, fr) for n, fr in src], {}
+        sc = view.get("sol_scale", {}) if sim == 1 else {}
+        return [(n, 1.0 if n in sc else fr) for n, fr in src], {}
     items, copies = [], {}
     nextn = 900
     for i, (n, fr) in enumerate(src):
@@ -602,7 +690,11 @@ def render(m, spec, view, exprs):
             blocks.append({"head": punch_block(exprs), "opts": [], "items": [], "tag": "punch"})
         src = stg["src"]
         items, copies = _mix_items(src, view, mixB, simno)
-        if simno == 1:
+        if simno == 1 and view.get("spread"):
+            for grp in spread_groups(m, spec):
+                blocks.append(_spread_block(db, [m["sols"][k] for k in grp], [spec[k] for k in grp], view,
+                                            [_num(view, "solution", m["sols"][k]["n"]) for k in grp], grp))
+        elif simno == 1:
             for k, s in enumerate(m["sols"]):
                 blocks.append(_sol_block(db, s, spec[k], view, _num(view, "solution", s["n"]), k))
                 for newn, orig in sorted(copies.items()):
